@@ -31,7 +31,7 @@ def parseOps : List Tok → Option (List Op)
   | ("recv", "Association.readLoopCloseCh") :: r => (parseOps r).map (Op.waitRc :: ·)
   | _ => none
 
-def prog (ts : List Tok) : List Op := (parseOps ts).getD []
+def progOf (ts : List Tok) : List Op := (parseOps ts).getD []
 
 def hasArm (arms : List (String × List Tok)) (label : String) : Bool := arms.any (·.1 == label)
 def armBody (arms : List (String × List Tok)) (label : String) : List Tok := ((arms.find? (·.1 == label)).map (·.2)).getD [("missing", "")]
@@ -44,14 +44,14 @@ def wakeOf (body : List Tok) : Wake := if body.contains ("broadcast", "Stream.re
 and the terminal branch of `writeLoop` call; `Close()` is `close()` followed by the wait for `readLoopCloseCh`. -/
 def closeApiOf : List Op :=
   match Gen.closeExportedBody with
-  | [("call", "Association.close"), ("recv", "Association.readLoopCloseCh")] => prog Gen.closeBody ++ [.waitRc]
+  | [("call", "Association.close"), ("recv", "Association.readLoopCloseCh")] => progOf Gen.closeBody ++ [.waitRc]
   | _ => []
 
 def choreoOfFacts : Choreo where
-  deferProg := prog Gen.readLoopDefer
-  closeProg := prog Gen.closeBody
+  deferProg := progOf Gen.readLoopDefer
+  closeProg := progOf Gen.closeBody
   closeApi := closeApiOf
-  abortProg := prog Gen.abortBody
+  abortProg := progOf Gen.abortBody
   chSend := armBody Gen.completeHandshakeArms "send Association.handshakeCompletedCh" == [("return", "")]
   chCw := armBody Gen.completeHandshakeArms "recv Association.closeWriteLoopCh" == []
   chRc := armBody Gen.completeHandshakeArms "recv Association.readLoopCloseCh" == []
